@@ -228,8 +228,79 @@ def match_known(known, d):
     return None
 
 
+class NoProgress(BaseException):
+    """raised in the main thread (SIGUSR1 from the watchdog thread) when no case has been produced for too long"""
+
+
+class Watchdog:
+    """Every check runs the implementation on generated inputs; a change that makes it loop on one of them would make the check hang.  While the
+    cases are being produced a thread watches the time since the last one; beyond the limit (VERIF_WATCHDOG_S, default 900 s, 1800 s in the thorough tier - a single case,
+    the longest enumerations included, takes seconds to a few minutes) it interrupts the main thread, and what the check's frames were working
+    on at that moment is reported as the input on which the implementation did not return."""
+    NAMES = ("text", "qt", "query", "q", "pattern", "pat", "subject", "value", "v", "data", "doc", "cells", "limit", "script", "argv", "args", "name")
+
+    def __init__(self, quick=True):
+        self.limit = float(os.environ.get("VERIF_WATCHDOG_S", "900" if quick else "1800"))
+        self.last = time.time(); self.on = False; self.fired = False
+
+    def start(self):
+        import signal, threading
+        if threading.current_thread() is not threading.main_thread(): return
+        self.saved = signal.signal(signal.SIGUSR1, self.handler)
+        self.on = True; self.last = time.time(); self.main = threading.main_thread().ident
+        threading.Thread(target=self.watch, daemon=True).start()
+
+    def handler(self, *a):
+        if self.on: raise NoProgress()
+
+    def watch(self):
+        import signal
+        while self.on:
+            time.sleep(1.0)
+            if self.on and not self.fired and time.time() - self.last > self.limit:
+                self.fired = True
+                signal.pthread_kill(self.main, signal.SIGUSR1)
+
+    def beat(self): self.last = time.time()
+
+    def stop(self):
+        import signal
+        if self.on:
+            self.on = False
+            signal.signal(signal.SIGUSR1, self.saved)
+
+    def describe(self, tb):
+        """the locals, by the usual names, of the check's frames on the stack when the interrupt arrived (innermost last)"""
+        out = {}
+        while tb is not None:
+            f = tb.tb_frame
+            if os.sep + "checks" + os.sep in f.f_code.co_filename or os.sep + "vlib" + os.sep + "harness" in f.f_code.co_filename:
+                for k in self.NAMES:
+                    if k in f.f_locals:
+                        try: out[k] = json.loads(json.dumps(f.f_locals[k], default=repr))
+                        except Exception: out[k] = repr(f.f_locals[k])[:2000]
+                out["where"] = "%s:%d in %s" % (os.path.basename(f.f_code.co_filename), tb.tb_lineno, f.f_code.co_name)
+            tb = tb.tb_next
+        for k, v in list(out.items()):
+            if len(json.dumps(v, default=repr)) > 4000: out[k] = json.dumps(v, default=repr)[:4000] + "..."
+        return out
+
+
 def correspond(mod, ctx, exe, budget):
-    cases = list(mod.cases(ctx, budget))
+    cases = []
+    wd = Watchdog(ctx.quick)
+    try:
+        wd.start()
+        for c in mod.cases(ctx, budget):
+            cases.append(c); wd.beat()
+    except NoProgress as ex:
+        wd.stop()
+        d = wd.describe(ex.__traceback__)
+        d["after_cases"] = len(cases)
+        msg = "the implementation did not return within %d s on this input (the check's own frames were here when it was interrupted)" % wd.limit
+        cases.append(Case(d, None, [9], [118, 0], None, True, "no-progress", True, lambda a, b, m=msg: m))
+    finally:
+        wd.stop()
     stats = {"evaluations": len(cases), "kinds": {}, "samples": []}
     model_reqs = [c.model_req for c in cases if c.model_req is not None]
     spec_reqs = [c.spec_req for c in cases if c.spec_req is not None]
